@@ -456,6 +456,62 @@ class Partial:
         return 'P%d' % self.n
 
 
+class Outer1:
+    class K:
+        def __init__(self, n):
+            self.n = n
+
+        def __hash__(self):
+            return hash(('O1K', self.n))
+
+        def __eq__(self, o):
+            return type(o) is type(self) and o.n == self.n
+
+        def __lt__(self, o):
+            if type(o) is not type(self):
+                return NotImplemented
+            return self.n < o.n
+
+        def __repr__(self):
+            return 'O1.K%d' % self.n
+
+
+class Outer2:
+    class K(Outer1.K):  # same __name__ and __module__ as Outer1.K, different __qualname__
+        def __hash__(self):
+            return hash(('O2K', self.n))
+
+        def __repr__(self):
+            return 'O2.K%d' % self.n
+
+
+class BadLt:
+    """__lt__ raises ValueError (not TypeError) against odd partners: both implementations must propagate it."""
+
+    def __init__(self, n):
+        self.n = n
+
+    def __hash__(self):
+        return hash(('BadLt', self.n))
+
+    def __eq__(self, o):
+        return isinstance(o, BadLt) and o.n == self.n
+
+    def __lt__(self, o):
+        if isinstance(o, BadLt) and (self.n + o.n) % 2:
+            raise ValueError('odd pair')
+        if not isinstance(o, BadLt):
+            return NotImplemented
+        return self.n < o.n
+
+    def __repr__(self):
+        return 'BadLt%d' % self.n
+
+
+class DictSub(dict):
+    pass
+
+
 def sortcmp(tape, viol, keys, probes, oplog):
     pools = {
         'int': [3, 1, 2, 7, 5, 0, -4],
@@ -470,6 +526,10 @@ def sortcmp(tape, viol, keys, probes, oplog):
         'key': [U.Key(i) for i in (4, 2, 9)],
         'bytes': [b'x', b'a'],
         'frozenset': [frozenset({1}), frozenset({1, 2}), frozenset()],
+        'nested1': [Outer1.K(i) for i in (3, 1, 2)],
+        'nested2': [Outer2.K(i) for i in (2, 3, 1)],
+        'badlt': [BadLt(i) for i in (4, 2, 1, 6)],
+        'complex': [2j, 1j],
     }
     names = sorted(pools)
     chosen = [names[tape.draw(len(names), 'pool')] for _ in range(1 + tape.draw(3, 'n-pools'))]
@@ -487,9 +547,31 @@ def sortcmp(tape, viol, keys, probes, oplog):
     d = {k: i for i, k in enumerate(ks)}
     ins = list(d)
     U.HOOK = None
-    twin = optree.utils.total_order_sorted(ins)
-    eng = optree.tree_structure(d).entries()
+    try:
+        twin = optree.utils.total_order_sorted(ins)
+        twin_exc = None
+    except Exception as e:  # noqa: BLE001
+        twin, twin_exc = None, type(e)
+    try:
+        eng = optree.tree_structure(d).entries()
+        eng_exc = None
+    except Exception as e:  # noqa: BLE001
+        eng, eng_exc = None, type(e)
+    cls_key = '+'.join(sorted(set(chosen)))
+    if twin_exc is not None or eng_exc is not None:
+        probes['sort:raised'] += 1
+        keys.add('sort|%s|raised' % cls_key)
+        oplog.append('sortcmp:%s:raised' % cls_key)
+        if twin_exc is not eng_exc:
+            viol('twin-disagree', 'sort:exception', 'total_order_sorted %s but the engine %s for keys %r' % (
+                'raised ' + twin_exc.__name__ if twin_exc else 'returned', 'raised ' + eng_exc.__name__ if eng_exc else 'returned', ins))
+        return
     dd = optree.tree_structure(defaultdict(int, d)).entries()
+    ds = optree.tree_structure(DictSub(d)).entries() if False else eng  # dict subclasses are leaves unless registered
+    # a single-key and an empty dict go through the same ordering code
+    for small in ({}, dict(list(d.items())[:1])):
+        if optree.tree_structure(small).entries() != optree.utils.total_order_sorted(list(small)):
+            viol('twin-disagree', 'sort:small', 'engine and twin disagree on a %d-key dict' % len(small))
     first_failed = False
     try:
         sorted(ins)
@@ -502,7 +584,6 @@ def sortcmp(tape, viol, keys, probes, oplog):
             probes['sort:both-failed'] += 1
             if twin != ins:
                 viol('twin-disagree', 'sort:fallback', 'total_order_sorted does not fall back to insertion order for %r: %r' % (ins, twin))
-    cls_key = '+'.join(sorted(set(chosen)))
     keys.add('sort|%s|%s' % (cls_key, first_failed))
     oplog.append('sortcmp:%s' % cls_key)
     same_order = len(twin) == len(eng) and all(a is b for a, b in zip(twin, eng))
